@@ -1,7 +1,16 @@
 module verifharness
 
-go 1.18
+go 1.22.0
+
+toolchain go1.23.5
 
 require github.com/DemoHn/Zn v0.0.0
 
 replace github.com/DemoHn/Zn => /repo
+
+require golang.org/x/tools v0.29.0
+
+require (
+	golang.org/x/mod v0.22.0 // indirect
+	golang.org/x/sync v0.10.0 // indirect
+)
